@@ -318,3 +318,24 @@ func init() {
 		}
 	}
 }
+
+func init() {
+	// ownq: VERIF_FN=key VERIF_IDX=n — writes/alias/escapes summary of one parameter
+	debugHooks["ownq"] = func(p *ir.Program) {
+		e := own.New(p)
+		fn := p.Func(os.Getenv("VERIF_FN"))
+		if fn == nil {
+			fmt.Println("not found")
+			return
+		}
+		idx := 0
+		fmt.Sscanf(os.Getenv("VERIF_IDX"), "%d", &idx)
+		for _, s := range e.WritesParam(fn, idx) {
+			fmt.Println("WRITE", e.Describe(s), "\n      ", strings.Join(s.Path, "\n       "))
+		}
+		fmt.Println("alias", e.AliasKind(fn, idx))
+		for _, es := range e.Escapes(fn, idx) {
+			fmt.Println("ESCAPE", p.InstrPos(es.Instr), "into", es.Into, "rel", es.Rel)
+		}
+	}
+}
